@@ -348,13 +348,16 @@ example : (step init (.read 1 0)).isSome = false := by decide
     `mutexRuntime.Eval`, as extracted from `/repo` on every run (`Ecal.Gen.C12.skeleton`,
     identifiers normalised), is the one the events of `Ecal.Mutex.step` follow. -/
 theorem skeleton_matches : Ecal.Gen.C12.skeleton = [
-    "T.Lock", "get M[N]", "if !found", "new M", "set M[N]=M", "end",
-    "get O[N]", "T.Unlock",
-    "if !found || O != tid",
-    "M.Lock",
-    "T.Lock", "set O[N]=tid", "T.Unlock",
-    "defer", "T.Lock", "set O[N]=0", "T.Unlock", "M.Unlock", "end",
-    "else if O == tid", "end",
+    "T[get M[N],get O[N],if !foundM{M=new;set M[N]=M}]",   -- look   (one atomic table section)
+    "if !foundO || O != tid",                              -- decide (absent owner reads as 0 ≠ tid)
+    "M.Lock",                                              -- lock
+    "T[set O[N]=tid]",                                     -- setOwner
+    "defer",                                               --   registered only on this branch
+    "T[set O[N]=0]",                                       -- resetOwner
+    "M.Unlock",                                            -- unlock
+    "end",
+    "else if O == tid",                                    -- re-entrant: nothing locked, nothing deferred
+    "end",
     "body"] := by decide
 
 end Ecal.Props.C12
